@@ -19,6 +19,8 @@ EXTENDS TLC, Sequences, Naturals, FiniteSets, SequencesExt
 
 BoolKeys == {"no_deps", "debug", "export", "unimock", "mockall"}
 Keywords == {"type", "fn", "match", "dyn", "impl"}      \* Rust keywords that can be written where an identifier is expected
+\* option names written with a leading `?` (only `?Send` is an option; the others are unknown options, and no identifiers)
+QuestionKeys == {"?Send", "?Sized", "?no_deps", "?export", "?debug", "?unimock", "?mockall"}
 Bare(k)   == [k |-> k, f |-> "bare", v |-> ""]
 Eq(k, v)  == [k |-> k, f |-> "eq", v |-> v]
 
@@ -81,7 +83,7 @@ LeadResult(target, a) ==
          \* no explicit lead: the first option token is tried as an option on a fork; if THAT fails it is
          \* taken for `visibility? Ident` of a delegation-target trait
          ELSE IF ParseOpt(a.opts[1]).err = "" THEN [err |-> "", impltrait |-> "", skip |-> 0]
-         ELSE IF a.opts[1].k = "?Sized" THEN [err |-> "syntax", impltrait |-> "", skip |-> 0]   \* `?` is no identifier
+         ELSE IF a.opts[1].k \in QuestionKeys THEN [err |-> "syntax", impltrait |-> "", skip |-> 0]   \* `?` is no identifier
          ELSE IF a.opts[1].f = "bare" THEN [err |-> "", impltrait |-> a.opts[1].k, skip |-> 1]
          ELSE [err |-> "syntax", impltrait |-> a.opts[1].k, skip |-> 1]     \* `key = junk`: ident taken, then `= junk` is no option
     [] target = "impl" -> [err |-> "", impltrait |-> "", skip |-> 0]
